@@ -24,8 +24,7 @@ worker() {
     git checkout -q -- . ; git clean -fdq
     if ! git apply $d 2>/dev/null; then echo "$id noapply $hdr" > $RES/$id.txt; continue; fi
     if ! go build ./... >/dev/null 2>&1; then echo "$id nocompile $hdr" > $RES/$id.txt; continue; fi
-    if ! go vet ./... >/dev/null 2>&1; then :; fi
-    T=$(timeout 300 go test -vet=off -count=1 -timeout 120s ./... 2>&1)
+    T=$(timeout 300 go test -vet=off -timeout 120s ./... 2>&1)   # result cache on: only packages that depend on the mutated file re-run
     rc=$?
     if [ $rc -ne 0 ]; then
       # tolerate the known flaky test only
@@ -37,7 +36,7 @@ worker() {
     OUT=$(mktemp -d)
     /tmp/hagcheck_mut -property all -tier quick -repo $WT -verif /verif -out $OUT > $OUT/all.log 2>&1
     props=$(awk '/^hagcheck property=/{split($2,a,"="); p=a[2]} /^VIOLATION|^UNDECIDED/{print p}' $OUT/all.log | sort -u | paste -sd,)
-    rules=$(grep -o "rule=[A-Za-z0-9-]*" $OUT/all.log | sort -u | paste -sd, | cut -c1-120)
+    rules=$(awk '/^VIOLATION/{getline; print}' $OUT/all.log | grep -o "rule=[A-Za-z0-9-]*" | sort -u | paste -sd, | cut -c1-120)
     rm -rf $OUT
     if [ -n "$props" ]; then echo "$id detected $props $rules $hdr" > $RES/$id.txt; else echo "$id survived $hdr" > $RES/$id.txt; fi
   done
